@@ -127,5 +127,8 @@ C19_Failing(c, h) ==
        \cup (IF execObservable /\ p.attempts # exp.retries THEN {"behaviourRetries"} ELSE {})
        \cup (IF exp.retries = 0 /\ p.attempts # 0 THEN {"behaviourRetries"} ELSE {})
        \cup (IF c.kind = "batch" /\ execObservable /\ p.hwm # (IF exp.conc > 0 THEN exp.conc ELSE 1) THEN {"behaviourConcurrency"} ELSE {})
-       \cup (IF c.kind = "batch" /\ execObservable /\ p.stopped # (exp.mode = 1) THEN {"behaviourErrorHandling"} ELSE {})
+       \* (continue mode: every item is executed; stop mode: with at most one worker nothing after the failing first item is -
+       \* with several workers how many items still run before the failure has been recorded depends on the schedule)
+       \cup (IF c.kind = "batch" /\ execObservable /\ ((exp.mode = 0 /\ p.stopped) \/ (exp.mode = 1 /\ exp.conc <= 1 /\ ~p.stopped))
+             THEN {"behaviourErrorHandling"} ELSE {})
 =============================================================================
